@@ -70,6 +70,7 @@ func exprStr(e ast.Expr) string { return types.ExprString(e) }
 
 var provRe = regexp.MustCompile(`\bProvide\((\w+)\)`)
 var valueRe = regexp.MustCompile(`Value\(mk_\w+\("(\w+)\(\)#0"\)\)`)
+var valueCallRe = regexp.MustCompile(`Value\((\w+)\(\)\)`)
 
 func providerID(e ast.Expr) string {
 	s := exprStr(e)
@@ -77,6 +78,9 @@ func providerID(e ast.Expr) string {
 		return m[1]
 	}
 	if m := valueRe.FindStringSubmatch(s); m != nil {
+		return m[1]
+	}
+	if m := valueCallRe.FindStringSubmatch(s); m != nil {
 		return m[1]
 	}
 	return ""
